@@ -137,7 +137,8 @@ Lemma last_rdev_spec M m devs acc :
 Proof.
   intros HM Hm. revert acc. induction devs as [|d devs IH]; intros acc H; [reflexivity|].
   cbn [forallb] in H. apply andb_true_iff in H as [Hd Hds]. apply wf_dev_spec in Hd as [H1 H2].
-  cbn [map last_rdev spec_terminal]. unfold dev_entry at 1. cbn [last_rdev]. rewrite IH by assumption.
+  cbn [map last_rdev spec_terminal]. unfold dev_entry at 1.
+  destruct (d_gone d); cbn [last_rdev negb andb]; rewrite IH by assumption; [reflexivity|].
   f_equal.
   rewrite !glibc_makedev_arith by lia.
   destruct (Z.eqb_spec (enc_arith M m) (enc_arith (d_major d) (d_minor d))) as [E|E].
@@ -151,7 +152,8 @@ Lemma last_rdev_zero devs acc :
 Proof.
   revert acc. induction devs as [|d devs IH]; intros acc H; [reflexivity|].
   cbn [forallb] in H. apply andb_true_iff in H as [Hd Hds]. apply wf_dev_spec in Hd as [H1 H2].
-  cbn [map last_rdev]. unfold dev_entry at 1. cbn [last_rdev]. rewrite IH by assumption.
+  cbn [map last_rdev]. unfold dev_entry at 1.
+  destruct (d_gone d); cbn [last_rdev]; rewrite IH by assumption; [reflexivity|].
   rewrite glibc_makedev_arith by lia.
   pose proof (enc_arith_pos (d_major d) (d_minor d)).
   destruct (Z.eqb_spec 0 (enc_arith (d_major d) (d_minor d))); [lia|reflexivity].
@@ -204,9 +206,9 @@ Proof.
 Qed.
 
 Definition ex_devs : list devnode :=
-  [ {| d_path := bs "/dev/tty1"; d_major := 4; d_minor := 1 |};
-    {| d_path := bs "/dev/pts/0"; d_major := 136; d_minor := 0 |};
-    {| d_path := bs "/dev/pts/300"; d_major := 136; d_minor := 300 |} ].
+  [ {| d_path := bs "/dev/tty1"; d_major := 4; d_minor := 1; d_gone := false |};
+    {| d_path := bs "/dev/pts/0"; d_major := 136; d_minor := 0; d_gone := false |};
+    {| d_path := bs "/dev/pts/300"; d_major := 136; d_minor := 300; d_gone := false |} ].
 Example ex_terminal :
   wf_kstat ex_kstat = true /\ forallb wf_dev ex_devs = true /\ fld 7 ex_kstat = Some (bs "34816")
   /\ parse_int (bs "34816") = Some (as_int32 (kernel_encode_dev 136 0))
@@ -220,7 +222,7 @@ Definition hi_kstat : kstat :=
   {| k_pid := bs "4242"; k_comm := bs "sh";
      k_after := bs "S" :: bs "1" :: bs "4242" :: bs "4242" :: bs "-2147448832" :: bs "-1"
                 :: map (fun n => bs "0") (seq 0 46) |}.
-Definition hi_devs : list devnode := [ {| d_path := bs "/dev/pts/524288"; d_major := 136; d_minor := 524288 |} ].
+Definition hi_devs : list devnode := [ {| d_path := bs "/dev/pts/524288"; d_major := 136; d_minor := 524288; d_gone := false |} ].
 Theorem terminal_signed_refuted :
   exists r devs M m t,
     wf_kstat r = true /\ forallb wf_dev devs = true /\ 1 <= M < 4096 /\ 0 <= m < 1048576 /\
@@ -232,3 +234,124 @@ Proof.
   exists hi_kstat, hi_devs, 136, 524288, (bs "-2147448832").
   vm_compute. repeat split; try reflexivity; discriminate.
 Qed.
+
+(* ------------------------------------------------ the two globbed directories *)
+Lemma filter_map_comm {A B} (f : A -> B) (P : B -> bool) l :
+  filter P (map f l) = map f (filter (fun x => P (f x)) l).
+Proof.
+  induction l as [|x l IH]; [reflexivity|]. cbn [map filter]. rewrite IH.
+  destruct (P (f x)); reflexivity.
+Qed.
+
+(* what the two glob() calls return is the list of nodes the specification names *)
+Theorem glob_listing dev pts :
+  glob_tty (map dev_entry dev) ++ glob_pts (map dev_entry pts) = map dev_entry (listed_nodes dev pts).
+Proof.
+  unfold listed_nodes, glob_tty, glob_pts. rewrite map_app, !filter_map_comm, !map_map.
+  assert (E : filter (fun x => negb (hidden (fst (dev_entry x)))) pts
+              = filter (fun d => match d_path d with 46 :: _ => false | _ => true end) pts).
+  { apply filter_ext. intros d. unfold dev_entry, hidden. cbn [fst].
+    destruct (d_path d) as [|c p]; [reflexivity|].
+    destruct c as [|q|q]; try reflexivity.
+    do 6 (destruct q as [q|q|]; try reflexivity). }
+  rewrite E.
+  f_equal; apply map_ext; intros d; reflexivity.
+Qed.
+
+Lemma wf_listed dev pts :
+  forallb wf_dev dev = true -> forallb wf_dev pts = true -> forallb wf_dev (listed_nodes dev pts) = true.
+Proof.
+  intros H1 H2. unfold listed_nodes. rewrite forallb_app.
+  assert (G : forall D P l, forallb wf_dev l = true -> forallb wf_dev (map (at_dir D) (filter P l)) = true).
+  { intros D P l. induction l as [|d l IH]; [reflexivity|]. cbn [forallb filter]. intros H.
+    apply andb_true_iff in H as [Hd Hl]. destruct (P d); [|now apply IH].
+    cbn [map forallb]. rewrite IH by assumption. now rewrite andb_true_r. }
+  now rewrite !G.
+Qed.
+
+(* terminal() over any /dev and /dev/pts listing (any number of nodes, any names, nodes that
+   vanish, several paths for one device): the path of the LAST listed node -- /dev/tty* in
+   scan order, then /dev/pts/* -- whose device number is the task's *)
+Theorem terminal_dirs_exact dev pts r M m t :
+  wf_kstat r = true -> forallb wf_dev dev = true -> forallb wf_dev pts = true ->
+  1 <= M < 4096 -> 0 <= m < 1048576 ->
+  fld 7 r = Some t -> parse_int t = Some (as_int32 (kernel_encode_dev M m)) ->
+  terminal true (glob_tty (map dev_entry dev) ++ glob_pts (map dev_entry pts)) (k_stat r)
+  = Val (spec_terminal M m (listed_nodes dev pts) None).
+Proof.
+  intros H H1 H2 HM Hm Hf Ht. rewrite glob_listing.
+  apply (terminal_exact _ r M m t); auto. now apply wf_listed.
+Qed.
+
+Definition dev_matches (M m : Z) (d : devnode) : bool :=
+  negb (d_gone d) && (d_major d =? M) && (d_minor d =? m).
+
+Lemma spec_terminal_app M m a b acc :
+  spec_terminal M m (a ++ b) acc = spec_terminal M m b (spec_terminal M m a acc).
+Proof. revert acc. induction a as [|d a IH]; intros acc; [reflexivity|]. cbn [app spec_terminal]. apply IH. Qed.
+
+Lemma spec_terminal_nomatch M m l acc :
+  forallb (fun d => negb (dev_matches M m d)) l = true -> spec_terminal M m l acc = acc.
+Proof.
+  revert acc. induction l as [|d l IH]; intros acc H; [reflexivity|]. cbn [forallb] in H.
+  apply andb_true_iff in H as [Hd Hl]. apply negb_true_iff in Hd. unfold dev_matches in Hd.
+  cbn [spec_terminal]. rewrite Hd. now apply IH.
+Qed.
+
+(* which path wins when several nodes carry the device number: the last one inserted *)
+Theorem spec_terminal_last M m a d b :
+  dev_matches M m d = true -> forallb (fun d => negb (dev_matches M m d)) b = true ->
+  spec_terminal M m (a ++ d :: b) None = Some (d_path d).
+Proof.
+  intros Hd Hb. rewrite spec_terminal_app. cbn [spec_terminal]. unfold dev_matches in Hd. rewrite Hd.
+  now apply spec_terminal_nomatch.
+Qed.
+
+(* the answer is a listed, still existing node with the task's device number ... *)
+Theorem spec_terminal_sound M m devs p :
+  spec_terminal M m devs None = Some p ->
+  exists d, In d devs /\ d_path d = p /\ dev_matches M m d = true.
+Proof.
+  assert (G : forall acc, spec_terminal M m devs acc = Some p ->
+                          acc = Some p \/ exists d, In d devs /\ d_path d = p /\ dev_matches M m d = true).
+  { induction devs as [|d devs IH]; intros acc H; [now left|]. cbn [spec_terminal] in H.
+    apply IH in H as [H|(d' & Hin & Hp & Hm)].
+    - fold (dev_matches M m d) in H. destruct (dev_matches M m d) eqn:E.
+      + injection H as H. right. exists d. split; [now left|]. auto.
+      + now left.
+    - right. exists d'. split; [now right|]. auto. }
+  intros H. apply G in H as [H|H]; [discriminate|exact H].
+Qed.
+
+(* ... and None only when no listed node has it *)
+Theorem spec_terminal_complete M m devs :
+  spec_terminal M m devs None = None -> forallb (fun d => negb (dev_matches M m d)) devs = true.
+Proof.
+  assert (G : forall acc, spec_terminal M m devs acc = None ->
+                          forallb (fun d => negb (dev_matches M m d)) devs = true).
+  { induction devs as [|d devs IH]; intros acc H; [reflexivity|]. cbn [spec_terminal] in H.
+    fold (dev_matches M m d) in H. cbn [forallb]. rewrite (IH _ H), andb_true_r.
+    destruct (dev_matches M m d) eqn:E; [|reflexivity]. exfalso.
+    assert (K : forall l q, spec_terminal M m l (Some q) <> None).
+    { clear. induction l as [|x l IHl]; intros q; [discriminate|]. cbn [spec_terminal].
+      destruct (negb (d_gone x) && (d_major x =? M) && (d_minor x =? m)); apply IHl. }
+    now apply K in H. }
+  apply G.
+Qed.
+
+Definition ex_dev : list devnode :=
+  [ {| d_path := bs "tty1"; d_major := 4; d_minor := 1; d_gone := false |};
+    {| d_path := bs "null"; d_major := 1; d_minor := 3; d_gone := false |};
+    {| d_path := bs "ttyS0"; d_major := 4; d_minor := 64; d_gone := true |} ].
+Definition ex_pts : list devnode :=
+  [ {| d_path := bs "0"; d_major := 136; d_minor := 0; d_gone := false |};
+    {| d_path := bs ".hidden"; d_major := 136; d_minor := 0; d_gone := false |};
+    {| d_path := bs "alias0"; d_major := 136; d_minor := 0; d_gone := false |};
+    {| d_path := bs "ptmx"; d_major := 5; d_minor := 2; d_gone := false |} ].
+Example ex_terminal_dirs :
+  forallb wf_dev ex_dev = true /\ forallb wf_dev ex_pts = true
+  /\ map d_path (listed_nodes ex_dev ex_pts)
+     = [bs "/dev/tty1"; bs "/dev/ttyS0"; bs "/dev/pts/0"; bs "/dev/pts/alias0"; bs "/dev/pts/ptmx"]
+  /\ spec_terminal 136 0 (listed_nodes ex_dev ex_pts) None = Some (bs "/dev/pts/alias0")
+  /\ spec_terminal 4 64 (listed_nodes ex_dev ex_pts) None = None.
+Proof. vm_compute. repeat split; reflexivity. Qed.
